@@ -52,7 +52,9 @@ var pool = strings.Fields(`SELECT FROM WHERE GROUP BY HAVING ORDER LIMIT OFFSET 
  PARALLEL CASE WHEN THEN ELSE END CAST EXTRACT INTERVAL BETWEEN AND OR NOT IN LIKE ILIKE IS NULL GLOBAL ANY ALL TRUE FALSE OVER PARTITION ROWS RANGE
  WINDOW QUALIFY GROUPING SETS CUBE ROLLUP TOTALS FILL INTERPOLATE TOP APPLY REPLACE COLUMNS PRIMARY KEY ENGINE TTL CODEC DEFAULT NULLABLE TUPLE MAP
  ( ) [ ] { } , . ; : :: ? ^ + - * / % = == != <> < > <= >= <=> || -> @ @@ $ 1 0 1.5 1e3 0x1f 'a' '' "q" ` + "`b`" + ` x t a.b f( count(*) {p:UInt8} $$h$$ -- /* */ DIV MOD
- SOURCE LAYOUT LIFETIME RANGE_HASHED FLAT MIN MAX IF TEMPORARY ON CLUSTER POPULATE EMPTY REFRESH EVERY DAY SECOND YEAR TRANSACTION COMMIT ROLLBACK BEGIN`)
+ SOURCE LAYOUT LIFETIME RANGE_HASHED FLAT MIN MAX IF TEMPORARY ON CLUSTER POPULATE EMPTY REFRESH EVERY DAY SECOND YEAR TRANSACTION COMMIT ROLLBACK BEGIN
+ 0b1111111111111111111111111111111111111111111111111111111111111111111111 0o7777777777777777777777777777777 0xFFFFFFFFFFFFFFFFFFFFFFFF -0x10::Int8 18446744073709551616 -9223372036854775809
+ 340282366920938463463374607431768211456 1e999 nan inf -inf 0x1p-1074 1_000_000 00 007 .5e-3 x'4142' b'0101' 'é' '\\x' [] () [1,'a',NULL] (1,2)::Tuple(UInt8,UInt8) {} a.1 t.* *.*`)
 
 var prefixes = []string{"", "SELECT ", "SELECT 1 FROM t ", "SELECT 1 ", "CREATE TABLE t ", "ALTER TABLE t ", "INSERT INTO t ", "WITH ", "SELECT * FROM t GROUP BY ", "CREATE DICTIONARY d (a UInt8) PRIMARY KEY a ", "EXPLAIN ", "SELECT CAST(", "SELECT f(", "SYSTEM ", "SHOW ", "GRANT ", "CREATE ", "SELECT a FROM t ORDER BY a "}
 
@@ -355,14 +357,35 @@ func maxNesting(src []byte) int {
 }
 
 func runOne(src []byte, E, B int64, wantExplain bool) (status string, tokens, steps int64, detail, explain string) {
-	for _, it := range lexer.Tokenize(bytes.NewReader(src)) {
-		switch it.Token {
-		case token.WHITESPACE, token.LINE_COMMENT, token.EOF:
-		default:
-			tokens++
+	func() {
+		defer func() {
+			if r := recover(); r != nil {
+				status, detail = "PANIC", "Tokenize: "+fmt.Sprint(r)
+			}
+		}()
+		for _, it := range lexer.Tokenize(bytes.NewReader(src)) {
+			switch it.Token {
+			case token.WHITESPACE, token.LINE_COMMENT, token.EOF:
+			default:
+				tokens++
+			}
 		}
+	}()
+	if status != "" {
+		return
 	}
-	p := parser.New(bytes.NewReader(src))
+	var p *parser.Parser
+	func() {
+		defer func() {
+			if r := recover(); r != nil {
+				status, detail = "PANIC", "parser.New: "+fmt.Sprint(r)
+			}
+		}()
+		p = parser.New(bytes.NewReader(src))
+	}()
+	if status != "" {
+		return
+	}
 	p.VerifSetBudget(E + B*tokens + 3)
 	var stmts []ast.Statement
 	var err error
